@@ -8,8 +8,8 @@ PROP_ID = 'C16'
 LEVEL = 'fault_enumeration'
 BUDGET = {'quick': 2500, 'thorough': 60000}
 RULE = ('Hypothesis draws a cadence (1..6 compatible frames with individual tchans, a start time incl. '
-        'unix-scale 1.7e9, per-frame gaps, optional slew overwrite, optional selection by slice or by order '
-        'label), a signal description and options as in C01 (incl. sub-sample integration and smearing) and '
+        'unix-scale 1.7e9, per-frame gaps, optional slew overwrite, optional selection by slice, order label, '
+        'reversed slice or arbitrary index list (so the first member need not be the earliest)), a signal description and options as in C01 (incl. sub-sample integration and smearing) and '
         '1..3 repeated injections; per member frame the added data must equal the reference evaluation at '
         'frame.ts + (t_start_k - t_start_0). Fault sequences: for the drawn callable component (path, time '
         'profile or frequency profile) a wrapper raises on its k-th call, for EVERY k from 1 to the number of '
@@ -19,7 +19,7 @@ RULE = ('Hypothesis draws a cadence (1..6 compatible frames with individual tcha
 ASSUMPTIONS = ['offset of frame k is the double (t_start_k - t_start_0), as the property words it',
                'array path / time profile only when all members have equal tchans',
                'tolerance as in C01']
-REQUIRED_CLASSES = ['frames>=2', 'fault', 'select=slice', 'select=label', 'smear', 'int_path', 'int_t',
+REQUIRED_CLASSES = ['frames>=2', 'fault', 'select=slice', 'select=label', 'select=index', 'smear', 'int_path', 'int_t',
                     'overwrite', 'unix_scale', 'repeat']
 
 
@@ -37,7 +37,8 @@ def strategy_(draw, tier):
     return dict(g=g, frames=frames, t0=draw(st.sampled_from([0.0, 1000.0, 1.7e9, 1.7e9 + 0.123])),
                 overwrite=draw(st.sampled_from([None, None, 0.0, 30.0, 2.5])),
                 sig=sg, opts=draw(S.opts_strategy()),
-                select=draw(st.sampled_from([None, None, 'slice', 'label'])),
+                select=draw(st.sampled_from([None, None, 'slice', 'label', 'index', 'reversed'])),
+                sel_idx=draw(st.lists(st.integers(0, 5), min_size=1, max_size=5)),
                 sel_a=draw(st.integers(0, 5)), sel_b=draw(st.integers(1, 6)),
                 order=draw(st.sampled_from(['ABACAD', 'ABABAB', 'AAABBB'])),
                 repeat=draw(st.integers(1, 3)),
@@ -128,6 +129,16 @@ def run_case(case, ctx):
         ok, target = core.call(obs, 'by_label', cad.by_label, lab)
         members = [f for f, l in zip(frames, labels) if l == lab]
         obs.cls('select=label')
+    elif sel == 'index':
+        # an index-array subset in arbitrary order: the first member need not be the earliest
+        ii = list(dict.fromkeys(i % nfr for i in case['sel_idx']))     # distinct members, arbitrary order
+        ok, target = core.call(obs, 'index_select', lambda: cad[ii])
+        members = [frames[i] for i in ii]
+        obs.cls('select=index')
+    elif sel == 'reversed':
+        ok, target = core.call(obs, 'reversed', lambda: cad[::-1])
+        members = frames[::-1]
+        obs.cls('select=index')
     if not ok:
         return obs
     if [id(f) for f in target] != [id(f) for f in members]:
